@@ -154,9 +154,11 @@ func runC17Round(w *World, round int) {
 	// a connection on top of a client that is not the one recorded for any consumer
 	w.Tick()
 	outs := w.ProviderStep([]TxSpec{{Signer: w.Accts["relayer"], Msgs: []sdk.Msg{w.createClientMsg(w.P, la.C, w.Cfg.ConsumerUnbonding)}, Tag: "create-client"}}, true, nil)
+	var extraClient, extraConsConn, extraProvConn string
 	if len(outs) == 1 && outs[0].OK() {
 		extra := eventAttr(outs[0].Result.Events, clienttypes.EventTypeCreateClient, clienttypes.AttributeKeyClientID)
 		if cc, pc, err := la.openConnectionOver(la.ConsClient, extra); err == nil {
+			extraClient, extraConsConn, extraProvConn = extra, cc, pc
 			save := la.ProvClient
 			la.ProvClient = extra
 			expect("unbound-client", la.craftedTry("client", "consumer", "provider", "1", channeltypes.ORDERED, []string{cc}, []string{pc}, next()), false)
@@ -310,7 +312,71 @@ func runC17Round(w *World, round int) {
 	if cl, ok := w.P.PApp.ProviderKeeper.GetClientIdToConsumerId(w.P.Ctx(), la.ProvClient); !ok || cl != la.CID {
 		w.Violation("C17", "client-attribution-changed-by-other-launch", map[string]any{"client": la.ProvClient, "consumer": cl, "expected": la.CID})
 	}
-	for i := 0; i < 4; i++ {
+	// ---- a consumer launched on a pre-existing connection whose client is bound to nobody (second consumer for A's chain id):
+	// it is bound to that client, gets its own CCV channel over that connection, and A keeps everything it had. The consumer
+	// side of this handshake is committed by direct store writes (chain A keeps running its first CCV channel).
+	if extraProvConn != "" {
+		ip2 := DefaultInitParams(w.Now.Add(20*time.Second), w.Cfg.ConsumerUnbonding)
+		ip2.ConnectionId = extraProvConn
+		xID := w.createCWith(owner, chainA, ip2)
+		specs = nil
+		for _, v := range w.createdVals() {
+			specs = append(specs, TxSpec{Signer: v.Oper, Msgs: []sdk.Msg{MsgOptIn(v, xID, nil)}, Tag: "opt-in"})
+		}
+		w.Tick()
+		w.ProviderStep(specs, false, nil)
+		for i := 0; i < 8 && w.Phase(xID) != phLaunch; i++ {
+			w.Tick()
+			w.ProviderStep(nil, false, nil)
+		}
+		w.Eval("C17")
+		w.Case("C17", "launch:on-unbound-pre-existing-connection phase="+w.Phase(xID).String())
+		if w.Phase(xID) != phLaunch {
+			w.Violation("C17", "launch-on-free-pre-existing-connection-failed", map[string]any{"consumer": xID, "phase": w.Phase(xID).String()})
+		} else {
+			w.Event("C17", "launched-on-pre-existing-connection")
+			pkp := w.P.PApp.ProviderKeeper
+			if cl, _ := pkp.GetConsumerClientId(w.P.Ctx(), xID); cl != extraClient {
+				w.Violation("C17", "pre-existing-connection-launch-bound-to-other-client", map[string]any{"consumer": xID, "client": cl, "connection_client": extraClient})
+			}
+			save := la.ProvClient
+			la.ProvClient = extraClient
+			k := next()
+			consChanX := fmt.Sprintf("channel-%d", 50+k)
+			o := la.craftedTry("preexisting", "consumer", "provider", "1", channeltypes.ORDERED, []string{extraConsConn}, []string{extraProvConn}, k)
+			expect("try-over-pre-existing-connection-of-second-consumer", o, true)
+			if o.OK() {
+				provChanX := eventAttr(o.Result.Events, channeltypes.EventTypeChannelOpenTry, channeltypes.AttributeKeyChannelID)
+				pch, _ := w.P.PApp.IBCKeeper.ChannelKeeper.GetChannel(w.P.Ctx(), "provider", provChanX)
+				end := channeltypes.NewChannel(channeltypes.OPEN, channeltypes.ORDERED, channeltypes.NewCounterparty("provider", provChanX), []string{extraConsConn}, pch.Version)
+				la.C.CApp.IBCKeeper.ChannelKeeper.SetChannel(la.C.WriteCtx(), "consumer", consChanX, end)
+				w.Tick()
+				w.Produce(la.C, nil, nil)
+				w.Tick()
+				w.Produce(la.C, nil, nil)
+				o2 := w.stepOn(w.P, extraClient, la.C, func(signer string) []sdk.Msg {
+					proof, ph := proofAt(la.C, host.ChannelKey("consumer", consChanX))
+					return []sdk.Msg{channeltypes.NewMsgChannelOpenConfirm("provider", provChanX, proof, ph, signer)}
+				})
+				expect("confirm-over-pre-existing-connection-of-second-consumer", o2, true)
+				if id, ok := pk().channelOwner(provChanX); o2.OK() && (!ok || id != xID) {
+					w.Violation("C17", "channel-attributed-to-wrong-consumer", map[string]any{"channel": provChanX, "consumer": id, "expected": xID})
+				}
+				// a second handshake over the same connection is refused now
+				k2 := next()
+				o3 := la.craftedTry("preexisting-again", "consumer", "provider", "1", channeltypes.ORDERED, []string{extraConsConn}, []string{extraProvConn}, k2)
+				expect("second-try-over-pre-existing-connection", o3, false)
+			}
+			la.ProvClient = save
+			if id, ok := pk().channelOwner(la.ProvChan); !ok || id != la.CID {
+				w.Violation("C17", "channel-attribution-changed-by-other-launch", map[string]any{"channel": la.ProvChan, "consumer": id, "expected": la.CID})
+			}
+			if cl, ok := pkp.GetClientIdToConsumerId(w.P.Ctx(), la.ProvClient); !ok || cl != la.CID {
+				w.Violation("C17", "client-attribution-changed-by-other-launch", map[string]any{"client": la.ProvClient, "consumer": cl, "expected": la.CID})
+			}
+		}
+	}
+	for i := 0; i < 6; i++ {
 		w.Step++
 		w.Tick()
 		w.ProviderStep(nil, false, nil)
